@@ -7,6 +7,8 @@ from props.c10 import to_digits, DIGITS
 
 PROP = 'C11'
 BIN = 'c11'
+# dense digit-count pass (run.dense_table): width-dependent estimates (digit counts, exponents) make every width interesting here
+DENSE = {'quick': {64: 128}, 'thorough': {8: 1024, 16: 512, 32: 256}}
 SIG = {'out': 'xd'}
 encode = default_encode(SIG)
 decode = default_decode(SIG)
@@ -163,3 +165,12 @@ def floors(st, tier):
 
 
 extra_passes = thorough_aux('props.c11', ('miri',))
+
+
+def dense_requests(cfg, rng, n, st):
+    """dense digit-count pass: values with the maximal number of digits (and one fewer) in every string radix and a few slice radices — what a
+    width-dependent buffer size or digit-count estimate has to cope with at this particular width"""
+    for r in list(range(2, 37)) + [37, 100, 128, 200, 255, 256]:
+        cap = len(to_digits(cfg.mask, r))
+        for v in (cfg.max, cfg.min if cfg.signed else cfg.max // 3, cfg.val((r ** (cap - 1)) & cfg.mask), cfg.val((r ** (cap - 1) - 1) & cfg.mask)):
+            yield 'out', (v, r)
